@@ -4,7 +4,7 @@ from ..terms import SELF, FAC, NONE, show, is_const, mentions, subterms
 from ..catalogue import catalogue, is_effect
 from ..lifecycle import lifecycle
 from ..handles import handles
-from .common import where, cls_short, contexts, capabilities, types, short, written_object
+from .common import where, cls_short, contexts, capabilities, types, short, written_object, kind_names
 from .flows import post_dispatch
 
 EXPLANATION = (
@@ -37,13 +37,15 @@ def check(ctx):
         cq = cls_short(cls.qual)
         lc = lifecycle(a, cls)
         hd = handles(a, cls)
-        ping = hd.ping
+        ping, packet = hd.ping, hd.ping_packet
         stored = eng.init_heap.get((ping, "pdu"))
+        if stored is None:
+            stored = next((v for (o, _f), v in eng.init_heap.items() if o == ping and isinstance(v, tuple) and v and v[0] == "encres"), None)
         # ... or kept where every other request keeps its wire image: in the object's own .encoded, filled by the encode() of the constructor
-        init_enc = [e for e in eng.init_events if e.kind == "ENCODE" and e.a.get("ok") and e.a["obj"] == ping]
+        init_enc = [e for e in eng.init_events if e.kind == "ENCODE" and e.a.get("ok") and e.a["obj"] == packet]
         in_encoded = stored is None and len(init_enc) == 1
         ctx.ob("Q2", "%s the PINGREQ packet is encoded once in the constructor" % cq,
-               (isinstance(stored, tuple) and stored[0] == "encres" and stored[1] == ping) or in_encoded, where=cls.module.path,
+               (isinstance(stored, tuple) and stored[0] == "encres" and stored[1] == packet) or in_encoded, where=cls.module.path,
                construct="%s/pingreq/stored" % cls.qual, nontrivial=False, msg="stored PINGREQ bytes are %s" % show(stored))
         # "with keepalive k": the k the CONNACK code reads from the CONNECT request is the one connect() was called with - nothing else
         # (a protocol-level default, the keepalive of an earlier connection) is mixed in on the way
@@ -117,7 +119,7 @@ def check(ctx):
                 for x in tr.events:
                     if x.kind == "WRITE":
                         how_, obj_ = written_object(x.a["data"])
-                        if obj_ is not None and "PINGREQ" in {q.split(".")[-1] for q in ty.class_of(obj_, eng)}:
+                        if obj_ is not None and "PINGREQ" in kind_names(a, ty.class_of(obj_, eng)):
                             wrote = True
                 ctx.ob("Q2", "%s the periodic call writes a PINGREQ while CONNECTED" % cq, wrote, where="%s:%d" % (pfunc.file, pfunc.node.lineno),
                        function=pfunc.qual, construct="%s/pingreq-missing" % pfunc.qual,
@@ -128,7 +130,7 @@ def check(ctx):
                 if e.kind != "WRITE":
                     continue
                 how, obj = written_object(e.a["data"])
-                cl = {x.split(".")[-1] for x in ty.class_of(obj, eng)} if obj is not None else set()
+                cl = kind_names(a, ty.class_of(obj, eng)) if obj is not None else set()
                 if "PINGREQ" not in cl:
                     continue
                 n_ping += 1
@@ -138,7 +140,7 @@ def check(ctx):
                 ctx.ob("Q5", "%s PINGREQ written only from the periodic call / ping() while CONNECTED (%s)" % (cq, tr.label()), okc,
                        where=where(e), function=e.func, construct="%s/pingreq-context/%s" % (e.func, tr.label()),
                        msg="PINGREQ written in context %s" % tr.label())
-                ctx.ob("Q2", "%s PINGREQ write sends exactly the stored bytes" % cq, e.a["data"] == stored or (in_encoded and (how, obj) == ("encoded", ping)), where=where(e), function=e.func,
+                ctx.ob("Q2", "%s PINGREQ write sends exactly the stored bytes" % cq, e.a["data"] == stored or (in_encoded and (how, obj) == ("encoded", packet)), where=where(e), function=e.func,
                        construct="%s/pingreq-bytes" % e.func, msg="PINGREQ routine writes %s" % show(e.a["data"]))
                 ws = [x for x in tr.events if x.kind == "WRITE"]
                 arms = [x for x in tr.events if x.kind == "ARM"]
